@@ -3,13 +3,18 @@
    Case:  b=<hex blank byte>,s=<hex pattern>.<hex pattern>...;tok tok tok
    where the tokens are the words of the set in hex ("-" = the empty word), strictly increasing.
    The automaton is built by the model of the builder (C12), encoded by [gob_encode], decoded by
-   [gob_decode] into a fresh node and observed; then encoded again. *)
+   [gob_decode] into a fresh node and observed; then encoded again.
+   Extensions (see harness/cmd/c14/lib/{foreign,history}.go): header fields n=<number of sources>,
+   x=<i>:<hex stream>/... (source i is the automaton [gob_decode] reads from that stream, a
+   stream written with another node numbering), p=<program>, v=e|f; tokens "<i>:<hex word>". *)
 open Model
 open Conv_nat
 open Conv_z
 
 let n_of_int (i : int) : n = if i = 0 then N0 else Npos (pos_of_int i)
 let int_of_n (x : n) : int = match x with N0 -> 0 | Npos p -> int_of_pos p
+(* ids are uint64 values: beyond OCaml's int *)
+let string_of_n (x : n) : string = match x with N0 -> "0" | Npos p -> string_of_pos p
 
 let word_of_hex (h : string) : word =
   if h = "-" || h = "" then [] else
@@ -50,8 +55,8 @@ let dump (s : store) : string =
       match sget s i with
       | None -> Buffer.add_string out (Printf.sprintf "dangling(%d)|" k)
       | Some nd ->
-        let kid_id x = match sget s x with Some nk -> string_of_int (int_of_n nk.nid) | None -> "?" in
-        Buffer.add_string out (Printf.sprintf "%d:%s:%d:%s:%s|" (int_of_n nd.nid) (string_of_z nd.nwords)
+        let kid_id x = match sget s x with Some nk -> string_of_n nk.nid | None -> "?" in
+        Buffer.add_string out (Printf.sprintf "%s:%s:%d:%s:%s|" (string_of_n nd.nid) (string_of_z nd.nwords)
                                  (if nd.nfinal then 1 else 0) (hex_of_word nd.nlabels)
                                  (String.concat "." (List.map kid_id nd.nkids)));
         List.iter visit nd.nkids
@@ -110,6 +115,64 @@ let observe (s2 : store) (maxlen : int) (blank : n) (pats : word list) : string 
   Printf.sprintf "words=%s ranks=%s nw=%s nodes=%s search=%s"
     (clip words_s) (clip (String.concat "," ranks)) nw nodes (clip (String.concat ";" (List.map search pats)))
 
+(* height of the automaton (longest path from the root), for the fuel of [words_from];
+   bounded so that a cyclic store (never generated; the domain check reports it) cannot loop *)
+let height_of (s : store) : int =
+  let ht = Hashtbl.create 64 in
+  let rec height (depth : int) (i : n) : int =
+    let k = int_of_n i in
+    match Hashtbl.find_opt ht k with
+    | Some h -> h
+    | None ->
+      let h = if depth > 100000 then 0 else
+          match sget s i with
+          | None -> 0
+          | Some nd -> List.fold_left (fun m x -> max m (1 + height (depth + 1) x)) 0 nd.nkids in
+      Hashtbl.replace ht k h; h in
+  height 0 root
+
+let bytes_of_hex (h : string) : n list =
+  List.init (String.length h / 2) (fun i -> n_of_int (int_of_string ("0x" ^ String.sub h (2 * i) 2)))
+
+type source = Words of word list | Stream of n list
+
+(* the observation of one source: (projected, strict) *)
+let round_trip (src : source) (blank : n) (pats : word list) : string * string =
+  let built = match src with
+    | Words words ->
+      (match new_dawg words with
+       | Panic -> Error "build-panic"
+       | NoFuel -> Error "build-nofuel"
+       | Ok None -> Error "build-error"
+       | Ok (Some s) -> Ok s)
+    | Stream b ->
+      (match gob_decode zero_node b with
+       | DErr -> Error "src-decode-error"
+       | DPanic -> Error "src-decode-panic"
+       | DOk s -> Ok s) in
+  match built with
+  | Error e -> (e, "")
+  | Ok s ->
+    let maxlen = match src with
+      | Words words -> List.fold_left (fun m w -> max m (List.length w)) 0 words
+      | Stream _ -> height_of s in
+    match with_fuel (fun f -> gob_encode f s root) with
+    | Panic -> ("encode-panic", "")
+    | NoFuel -> ("encode-nofuel", "")
+    | Ok b ->
+      match gob_decode zero_node b with
+      | DErr -> ("decode-error", "bytes=" ^ clip (hex_of_bytes b))
+      | DPanic -> ("decode-panic", "bytes=" ^ clip (hex_of_bytes b))
+      | DOk s2 ->
+        let re = match with_fuel (fun f -> gob_encode f s2 root) with
+          | Ok b2 -> if b2 = b then "same" else "DIFFERENT"
+          | Panic -> "panic" | NoFuel -> "nofuel" in
+        let canon = match src with
+          | Words _ -> ""
+          | Stream st -> if st = b then " canon=same" else " canon=DIFFERENT" in
+        (Printf.sprintf "wf=%s %s reenc=%s%s" (wf_string s) (observe s2 maxlen blank pats) re canon,
+         Printf.sprintf "dump=%s bytes=%s" (clip (dump s2)) (clip (hex_of_bytes b)))
+
 let () =
   try
     while true do
@@ -117,34 +180,55 @@ let () =
       let i = String.index line ';' in
       let header = String.sub line 0 i in
       let toks = split_nonempty ' ' (String.sub line (i + 1) (String.length line - i - 1)) in
-      let blank = ref (n_of_int 63) and pats = ref [] in
+      let blank = ref (n_of_int 63) and pats = ref [] and nsrc = ref 0 and streams = ref [] and prog = ref false in
       List.iter (fun kv ->
           match String.index_opt kv '=' with
           | None -> ()
           | Some j ->
             let k = String.sub kv 0 j and v = String.sub kv (j + 1) (String.length kv - j - 1) in
             if k = "b" then blank := n_of_int (int_of_string ("0x" ^ v))
-            else if k = "s" then pats := List.map word_of_hex (split_nonempty '.' v))
+            else if k = "s" then pats := List.map word_of_hex (split_nonempty '.' v)
+            else if k = "n" then nsrc := int_of_string v
+            else if k = "p" then prog := (v <> "")
+            else if k = "x" then
+              List.iter (fun e ->
+                  match String.index_opt e ':' with
+                  | Some c when c > 0 ->
+                    streams := (int_of_string (String.sub e 0 c),
+                                bytes_of_hex (String.sub e (c + 1) (String.length e - c - 1))) :: !streams
+                  | _ -> ()) (split_nonempty '/' v))
         (String.split_on_char ',' header);
-      let words = List.map word_of_hex toks in
-      let maxlen = List.fold_left (fun m w -> max m (List.length w)) 0 words in
-      (match new_dawg words with
-       | Panic -> print_endline "build-panic"
-       | NoFuel -> print_endline "build-nofuel"
-       | Ok None -> print_endline "build-error"
-       | Ok (Some s) ->
-         match with_fuel (fun f -> gob_encode f s root) with
-         | Panic -> print_endline "encode-panic"
-         | NoFuel -> print_endline "encode-nofuel"
-         | Ok b ->
-           match gob_decode zero_node b with
-           | DErr -> Printf.printf "decode-error ## bytes=%s\n" (clip (hex_of_bytes b))
-           | DPanic -> Printf.printf "decode-panic ## bytes=%s\n" (clip (hex_of_bytes b))
-           | DOk s2 ->
-             let re = match with_fuel (fun f -> gob_encode f s2 root) with
-               | Ok b2 -> if b2 = b then "same" else "DIFFERENT"
-               | Panic -> "panic" | NoFuel -> "nofuel" in
-             Printf.printf "wf=%s %s reenc=%s ## dump=%s bytes=%s\n" (wf_string s) (observe s2 maxlen !blank !pats) re
-               (clip (dump s2)) (clip (hex_of_bytes b)))
+      let n = max 1 !nsrc in
+      (* tokens: "<hex word>" belongs to source 0, "<i>:<hex word>" to source i *)
+      let words = Array.make n [] in
+      List.iter (fun t ->
+          let si, w = match String.index_opt t ':' with
+            | Some c when c > 0 -> (int_of_string (String.sub t 0 c), String.sub t (c + 1) (String.length t - c - 1))
+            | _ -> (0, t) in
+          if si >= 0 && si < n && not (List.mem_assoc si !streams) then words.(si) <- word_of_hex w :: words.(si)) toks;
+      let src k = match List.assoc_opt k !streams with
+        | Some b -> Stream b
+        | None -> Words (List.rev words.(k)) in
+      if n = 1 && not !prog then begin
+        (* a plain case: one source, its round trip *)
+        let (p, st) = round_trip (src 0) !blank !pats in
+        if st = "" then print_endline p else Printf.printf "%s ## %s\n" p st
+      end else begin
+        (* a history case: the model of every step of the program is the round trip of the source
+           concerned (GobEncode / GobDecode have no state in the model), so the observation is the
+           round trip of each source *)
+        let rs = List.init n (fun k -> round_trip (src k) !blank !pats) in
+        let failed = List.exists (fun (p, _) -> String.length p < 3 || String.sub p 0 3 <> "wf=") rs in
+        let built_failed = List.exists (fun (p, _) -> p = "build-error" || p = "src-decode-error") rs in
+        if built_failed then
+          print_endline (String.concat " " (List.mapi (fun k (p, _) ->
+              Printf.sprintf "[%d] %s" k (if p = "build-error" || p = "src-decode-error" then p else "not-run")) rs))
+        else begin
+          ignore failed;
+          Printf.printf "%s ##%s\n"
+            (String.concat " " (List.mapi (fun k (p, _) -> Printf.sprintf "[%d] %s" k p) rs))
+            (String.concat "" (List.mapi (fun k (_, st) -> Printf.sprintf " [%d] %s" k st) rs))
+        end
+      end
     done
   with End_of_file -> ()
